@@ -29,6 +29,10 @@ pub struct Boxed<T = sylvia::cw_std::Empty> {
     pub v: T,
 }
 
+/// a value without members (its encoding is `{}`, its size in memory zero)
+#[derive(Serialize, Deserialize, Clone, Debug, PartialEq, JsonSchema, Default)]
+pub struct Nil {}
+
 /// typed reply payload carrying a nonce and the reply handler's script
 #[derive(Serialize, Deserialize, Clone, Debug, PartialEq, JsonSchema)]
 pub struct Pay {
